@@ -1,4 +1,5 @@
 import RosuModel.Lemmas.SuspicionRat
+import RosuModel.Lemmas.StackingFull
 import Mathlib.Data.Rat.Floor
 import Mathlib.Tactic.FieldSimp
 
@@ -329,5 +330,52 @@ of an arbitrarily long, arbitrarily slow path per slider, any number of them in 
 hence the number of nested objects / ticks is unbounded on the accepted domain — the first half of
 the finding `resource-proportional-work` (`adv:36`); the second half is the factor `1/r` above.
 -/
+
+/-! ## osu! stacking, both passes, with stack heights (tied by `STK` lines)
+
+`Model/StackingFull.lean` transcribes `stacking` (version ≥ 6) and `old_stacking` (version < 6) of
+`src/osu/convert.rs` including the `stack_height` state; the driver replays the `f64` / `f32`
+predicates in IEEE arithmetic and the resulting heights are compared with the real passes
+(`osu::verif::stacking_probe_*`) on every osu! map the search exercises and on synthetic object lists. -/
+
+open Rosu.Stack in
+/-- **`stacking` never indexes out of bounds**, for every object list, every threshold and every
+arithmetic (whatever the float predicates answer): all `hit_objects[n]`, `[obj_i_idx]`, `[j]` reads
+and `stack_height` writes are in bounds; the result has one height per object. -/
+theorem osu_stacking_full_never_panics {T P : Type} (A : Stack.Arith T P) (thr : T) (objs : List (SObj T P)) :
+    ∃ h, stacking A thr objs = some h ∧ h.length = objs.length :=
+  stacking_ok A thr objs
+
+open Rosu.Stack in
+/-- **`old_stacking` never indexes out of bounds** (`for i in 0..len`, `for j in i + 1..len`). -/
+theorem osu_old_stacking_never_panics {T P : Type} (A : Stack.Arith T P) (thr : T) (objs : List (SObj T P)) :
+    ∃ h, oldStacking A thr objs = some h ∧ h.length = objs.length :=
+  oldStacking_ok A thr objs
+
+namespace StackExamples
+open Rosu.Stack
+
+/-- exact instance for the examples: integer times, integer positions, `distance < 3 ⇔ dx² + dy² < 9` -/
+def intArith : Stack.Arith Int (Int × Int) where
+  sub a b := a - b
+  gt a b := decide (a > b)
+  close a b := decide ((a.1 - b.1) * (a.1 - b.1) + (a.2 - b.2) * (a.2 - b.2) < 9)
+
+def circ (x y t : Int) : SObj Int (Int × Int) := ⟨0, (x, y), t, t, (x, y), 0, none, none⟩
+def slid (x y t e ex ey : Int) : SObj Int (Int × Int) := ⟨1, (x, y), t, e, (ex, ey), 0, some (ex, ey), none⟩
+
+/-- three circles on one spot: heights 2, 1, 0 (new) and 2, 1, 0 (old) -/
+example : stacking intArith 500 [circ 10 10 0, circ 10 10 100, circ 10 10 200] = some [2, 1, 0] := by decide
+example : oldStacking intArith 500 [circ 10 10 0, circ 10 10 100, circ 10 10 200] = some [2, 1, 0] := by decide
+/-- circles under a slider's end: negative stacking (`stack_height -= offset`) -/
+example : stacking intArith 500 [slid 0 0 0 50 100 100, circ 100 100 100, circ 100 100 200] = some [0, -1, -2] := by
+  decide
+example : oldStacking intArith 500 [slid 0 0 0 50 100 100, circ 100 100 100, circ 100 100 200] = some [0, -1, -2] := by
+  decide
+/-- the checked accesses are real: an inner loop running one index too far (`i + 1..=len`) is reported -/
+example : oldInner intArith 500 [circ 0 0 0, circ 0 0 1] 0 (circ 0 0 0) (0, 0) [1, 2] 0 0 [0, 0] = none := by decide
+example : circleLoop intArith 500 [circ 0 0 0, circ 0 0 1] 2 2 2 [0, 0] = none := by decide
+
+end StackExamples
 
 end Rosu.C05
